@@ -535,6 +535,7 @@ def run_c03_v1(case):
     box["case"] = case
     msgs = []
     out = []
+    state = {}
     for t in range(case["turns"]):
         box["turn"] = t
         box["occ"] = {}
@@ -545,7 +546,13 @@ def run_c03_v1(case):
         msgs.append({"role": "user", "content": user})
         o = {"turn": t, "user": user, "exc": None, "reply": None}
         try:
-            r = app.generate(messages=msgs)
+            if case.get("api") == "state":
+                # explicit state object instead of the message history (events carried by `state`)
+                res = app.generate(messages=[{"role": "user", "content": user}], state=state)
+                state = res.state
+                r = res.response[0] if isinstance(res.response, list) else {"role": "assistant", "content": res.response}
+            else:
+                r = app.generate(messages=msgs)
             o["reply"] = r["content"]
             o["role"] = r["role"]
             msgs.append(r)
